@@ -285,7 +285,7 @@ func init() {
 		ID:   "C17",
 		Desc: "stream segmentation independence on the io.Reader and the socket (recvmsg) receive paths",
 		Run:  runC17,
-		Quick: 48000, Thorough: 800000, QuickSecs: 60, ThorSecs: 1500,
+		Quick: 48000, Thorough: 3000000, QuickSecs: 60, ThorSecs: 1500,
 		Rule:  "batches of 2-6 independent requests with and without payloads (Twrite 0..4000 bytes, Tread, Twalk 0-2 names, Tmkdir/Tsymlink with strings of 0..200 bytes, Tsetattr, Tgetattr with random masks, and well-delimited frames the server skips or rejects: unknown types with bodies of 0..3000 bytes, known types with short or inconsistent bodies) delivered as one byte stream cut into reads: single bytes, tape-chosen cuts, one or two planned cuts (aimed at offsets 1,4,6,7,8 and around the first frame boundary half of the time), several frames per read, streams ending at a tape-chosen offset, and complete streams whose end arrives as a separate (0, EOF) read or together with the final bytes (n, EOF); each through the generic io.Reader path (simnet) and a real AF_UNIX socket pair (vecnet recvmsg/iovec path), server and client as receivers. Oracle: per request, the reply and the backend calls with their arguments and payload bytes equal those of a whole, lock-step reference delivery; a stream ending inside a frame ends the connection with no reply and no backend call for the partial frame.",
 		Assume: []string{"requests of a batch touch disjoint fids and names, so concurrent handling cannot change their individual results"},
 		Real:   []string{"p9 recv path", "vecnet.Buffers.ReadFrom (generic and recvmsg paths)", "kernel socket pair (socket mode)", "p9.Server"},
